@@ -177,12 +177,12 @@ PROPS = {
                       "(rebuild_dominates, merge_witnesses_remote), written times exceed everything seen (written_dominates); a deleted clock "
                       "restarts at 1 and a torn one errors (so rebuilding from the entities is required: checked on the CLI path). The "
                       "necessary hypothesis HopOK is made explicit by a kernel-checked counterexample (commit_unreadable_when_clock_far), "
-                      "replayed on the real code every run (known finding). The in-memory clock under concurrency is modelled at the granularity of its atomic operations (load, compare-and-swap, add): for every interleaving of any number of goroutines the counter never decreases and a returned Witness(v) leaves it at or above v for good (CAS.witness_cas_linear).",
+                      "replayed on the real code every run (known finding). The in-memory clock under concurrency is modelled at the granularity of its atomic operations (load, compare-and-swap, add): for every interleaving of any number of goroutines the counter never decreases and a returned Witness(v) leaves it at or above v for good (CAS.witness_cas_linear). The clock file under concurrent use is modelled too (Model/ClockFile): with the repaired Write - a mutex, the counter read inside it: regenerated obligation FileFollows.gen_clock_write_serialised - any interleaving of any number of goroutines leaves the file at what the clock stands at once everybody has written (FileFollows.file_follows_counter); the two-step Write of the pinned tree has a kernel-checked schedule that leaves the file behind a time already handed out (FileFollows.pinned_write_falls_behind), found on the real code by the goroutine slice c05Concurrent.",
         "level_note": "Trusted: Lean kernel, harness. uint64 overflow and the CAS retry loop under real concurrency are not modelled "
                       "(witness is modelled sequentially; witness_fold shows any order ends at the maximum). Decimal rendering of the clock "
                       "file is abstracted (FileState) and validated on real files. Fixed in /repo: CLI opened the repository without clock "
                       "loaders. Known finding: hop limit vs per-type clock.",
-        "required_theorems": ["gen_clock_not_exist_only_when_missing", "increment_gt", "witness_ge", "witness_fold", "step_synced", "step_monotone", "run_monotone", "increment_fresh",
+        "required_theorems": ["gen_clock_not_exist_only_when_missing", "FileFollows.file_follows_counter", "FileFollows.pinned_write_falls_behind", "FileFollows.gen_clock_write_serialised", "increment_gt", "witness_ge", "witness_fold", "step_synced", "step_monotone", "run_monotone", "increment_fresh",
                               "witness_dominates", "persist_restart", "deleted_clock_restarts", "torn_clock_errors", "rebuild_dominates",
                               "merge_witnesses_remote", "written_dominates", "commit_unreadable_when_clock_far", "CAS.witness_cas_linear", "CAS.step_inv"],
         "slices": ["C05"],
